@@ -108,6 +108,54 @@ fn cases(thorough: bool) -> Vec<Case> {
             utf8: true,
         });
     }
+    // more than 256 patterns ending at one position (counters of the output-chain walk): runs
+    // y^1..y^300 and all 300 suffixes of a 300-byte word
+    {
+        let w = &long[..300];
+        let mut pats: Vec<Vec<u8>> = (1..=300usize).map(|l| vec![b'y'; l]).collect();
+        for s in 0..300usize {
+            pats.push(w[s..].to_vec());
+        }
+        let mut h = vec![b'y'; 310];
+        h.push(b'z');
+        h.extend_from_slice(w);
+        h.push(b'z');
+        h.extend_from_slice(&w[5..]);
+        h.extend_from_slice(&[b'y'; 257]);
+        v.push(Case {
+            name: "600 nested patterns: up to 300 patterns end at one position".into(),
+            pats,
+            hays: vec![h],
+            utf8: true,
+        });
+    }
+    // one character occurring more than 65 535 times in the collection (frequency counters of the
+    // char-wise code mapper): inside one pattern, and spread over 66 000 patterns
+    {
+        let mut h = vec![b'y'; 70_001];
+        h.push(b'z');
+        h.extend_from_slice(&[b'y'; 3]);
+        v.push(Case {
+            name: "one character 70000 times in one pattern".into(),
+            pats: vec![vec![b'y'; 70_000], b"y".to_vec(), b"yyz".to_vec()],
+            hays: vec![h],
+            utf8: true,
+        });
+        let al: Vec<u8> = (b'A'..=b'Z').chain(b'a'..=b'o').collect();
+        let enc = |i: usize| vec![b'x', al[i / (41 * 41)], al[(i / 41) % 41], al[i % 41]];
+        let pats: Vec<Vec<u8>> = (0..66_000usize).map(enc).collect();
+        let mut h: Vec<u8> = Vec::new();
+        for i in (0..66_000usize).rev().step_by(61) {
+            h.extend_from_slice(&enc(i));
+            h.push(al[i % 41]);
+        }
+        v.push(Case {
+            name: "66000 patterns sharing one character".into(),
+            pats,
+            hays: vec![h],
+            utf8: true,
+        });
+    }
     if thorough {
         // the same with raw bytes: every 2-byte string over 256 labels and some 3-byte strings
         let mut pats: Vec<Vec<u8>> = Vec::new();
@@ -199,7 +247,7 @@ pub fn scale_cases(prop: &str, kinds: &[Kind], methods: &[Method], tier: &str, a
         let _ = (hex(&[]), &b as &Built);
     });
     acc.merge(a);
-    bounds.push(format!("scale cases: haystacks of 255/256/257/65535/65536/65537/70001 bytes, a 66000-byte pattern, 74284 patterns{} x both variants x kinds {:?}", if thorough { ", 70536 byte patterns" } else { "" }, kinds.iter().map(|k| k.name()).collect::<Vec<_>>()));
+    bounds.push(format!("scale cases: haystacks of 255/256/257/65535/65536/65537/70001 bytes, a 66000-byte pattern, 74284 patterns, 300 patterns ending at one position, one character 70000 times in one pattern / in 66000 patterns{} x both variants x kinds {:?}", if thorough { ", 70536 byte patterns" } else { "" }, kinds.iter().map(|k| k.name()).collect::<Vec<_>>()));
 }
 
 /// Replays a scale finding by re-running all scale cases of the property.
@@ -217,4 +265,38 @@ pub fn replay_scale(case: &serde_json::Value) -> bool {
     methods.push(Method::Lm);
     scale_cases(&prop, &kinds, &methods, "quick", &mut acc, &mut b);
     !acc.violations.is_empty()
+}
+
+/// C10 at scale: every scale collection is valid and must be accepted by every entry point of both
+/// variants (all kinds through the builder) without a panic.
+pub fn validity(prop: &str, tier: &str, acc: &mut Acc, bounds: &mut Vec<String>) {
+    let cs = cases(tier_is_thorough(tier));
+    let mut tasks: Vec<(usize, Cfg)> = Vec::new();
+    for (i, c) in cs.iter().enumerate() {
+        for variant in Variant::ALL {
+            if variant == Variant::Char && !c.utf8 {
+                continue;
+            }
+            for kind in Kind::ALL {
+                tasks.push((i, Cfg::new(variant, kind, None, Entry::Builder)));
+            }
+            tasks.push((i, Cfg::new(variant, Kind::Std, None, Entry::Assoc)));
+        }
+    }
+    let a = par_for(tasks.len(), |ti, acc| {
+        let (ci, cfg) = tasks[ti];
+        let c = &cs[ci];
+        let origin = json!({"scale_case": c.name, "variant": cfg.variant.name(), "kind": cfg.kind.name(), "nfb": null, "entry": cfg.entry.name()});
+        set_case(prop, "enum", origin);
+        util::tick_progress();
+        acc.evals += 1;
+        acc.nontrivial += 1;
+        for vals in [false, true] {
+            let v: Option<Vec<u32>> = vals.then(|| (0..c.pats.len() as u32).rev().collect());
+            let _ = e2::build_or_violate(prop, "enum", cfg, &c.pats, v.as_deref(), acc);
+            acc.traces += 1;
+        }
+    });
+    acc.merge(a);
+    bounds.push(format!("scale validity: the {} scale collections (66000-byte pattern, 74284 patterns, 600 nested patterns, one character 70000 times in one pattern / in 66000 patterns) accepted by builder x 3 kinds and the associated constructors of both variants, with and without values", cs.len()));
 }
